@@ -436,10 +436,18 @@ impl World {
     }
 
     pub fn sys_mprotect(&mut self, addr: u64, len: u64, prot: i32) -> i32 {
+        self.sys_mprotect_opt(addr, len, prot, true)
+    }
+
+    /// `faultable = false`: used by the mach_vm_protect shim (no failures are injected there: the
+    /// macOS path ignores the kern_return_t and nothing is claimed about that)
+    pub fn sys_mprotect_opt(&mut self, addr: u64, len: u64, prot: i32, faultable: bool) -> i32 {
         let idx = self.counters.mprotect_calls;
-        self.counters.mprotect_calls += 1;
+        if faultable {
+            self.counters.mprotect_calls += 1;
+        }
         let mut ret = 0;
-        if self.policy.fail_mprotect.binary_search(&idx).is_ok() {
+        if faultable && self.policy.fail_mprotect.binary_search(&idx).is_ok() {
             self.counters.mprotect_injected_fail += 1;
             ret = -1;
         } else if addr % self.page_size != 0 {
